@@ -177,6 +177,40 @@ theorem add_drops_invalid (a x : Nat) (ha : 0 < a ∧ a < N) (hx : N ≤ x) : bf
   have ha0 : a ≠ 0 := by omega
   simp [bfAdd_eq, nzKey_big hx, nzKey_valid ha0 ha.2, secpBlindSum_one ha.2, ha0]
 
+/-- **Kernel offsets that cancel out** (`committed::blind_sum_or_zero`, repair b04699b48): for
+operands that are scalars the sum is the zero factor exactly when the operands cancel mod n, and the
+mathematical sum otherwise — never `InvalidSecretKey`. -/
+theorem blind_sum_or_zero_value (pos neg : List Nat)
+    (h : overflows pos = false ∧ overflows neg = false) :
+    blindSumOrZero pos neg = .ok ((pos.sum + (neg.map sneg).sum) % N) := by
+  have hN : 1 < N := by unfold N; omega
+  have ho : overflows (pos ++ [1]) = false := by
+    simp only [overflows, List.any_append, List.any_cons, List.any_nil, Bool.or_false,
+      Bool.or_eq_false_iff, decide_eq_false_iff_not] at h ⊢
+    exact ⟨h.1, by omega⟩
+  unfold blindSumOrZero
+  rw [secpBlindSum_eq pos neg, secpBlindSum_eq (pos ++ [1]) neg]
+  simp only [h.1, h.2, ho, Bool.or_self, Bool.false_eq_true, if_false]
+  show (match (if rawSum pos neg = 0 then SumRes.invalidKey else SumRes.ok (rawSum pos neg)) with
+    | .ok k => SumRes.ok k
+    | .panic => .panic
+    | .invalidKey => match (if rawSum (pos ++ [1]) neg = 0 then SumRes.invalidKey
+        else SumRes.ok (rawSum (pos ++ [1]) neg)) with
+      | .ok k => if k = 1 then .ok 0 else .invalidKey
+      | .panic => .panic
+      | .invalidKey => .invalidKey) = .ok (rawSum pos neg)
+  by_cases hz : rawSum pos neg = 0
+  · have h1 : rawSum (pos ++ [1]) neg = 1 := by
+      unfold rawSum at hz ⊢
+      rw [List.sum_append]
+      simp only [List.sum_cons, List.sum_nil]
+      generalize (List.map sneg neg).sum = t at *
+      generalize pos.sum = u at *
+      unfold N at *
+      omega
+    simp [hz, h1]
+  · simp [hz]
+
 /-- Non-vacuity: concrete scalars near the group order. `(n−1) + 2 = 1`, `split (1) (n−1) = 2`. -/
 example : bfAdd (N - 1) 2 = .ok 1 ∧ bfSplit 1 (N - 1) = .ok 2 ∧ bfSplit 5 5 = .invalidKey ∧
     secpBlindSum [N - 1, 1] [] = .invalidKey ∧ secpBlindSum [N] [] = .panic ∧
